@@ -208,6 +208,14 @@ func init() {
 		}
 		l.p("/-- `crsr.ApplyState`: after a position that differs from the cursor's own was applied, the wrapping iterators are made to forget their buffered event / selection (direction switch there and back; 0706090) -/")
 		l.p("def applyStateDropsBuffers : Bool := %s", leanBool(drops22))
+		keepsIt := false
+		if fd := pp.method("JIterator", "advanceChunk"); fd == nil {
+			problem("partition.JIterator.advanceChunk not found")
+		} else {
+			keepsIt = c03AssignsPosOnEOF(fd)
+		}
+		l.p("/-- `partition.JIterator.advanceChunk`: when the selector answers end of data the iterator keeps the position its chunk iterator stopped at (proposed repair of F59) -/")
+		l.p("def advanceKeepsIteratorPos : Bool := %s", leanBool(keepsIt))
 		l.write()
 	}
 	generators["C03"] = gen
